@@ -87,8 +87,8 @@ def _str_literal_helper(string, *, quote_types):
         # Sort so that we prefer '''"''' over """\""""
         possible_quotes.sort(key=lambda q: q[0] == escaped_string[-1])
         # If we're using triple quotes and we'd need to escape a final
-        # quote, escape it
-        if possible_quotes[0][0] == escaped_string[-1]:
+        # quote, escape it (when it is not already escaped as extra quote)
+        if possible_quotes[0][0] == escaped_string[-1] and escaped_string[-1] != extra:
             assert len(possible_quotes[0]) == 3
             escaped_string = escaped_string[:-1] + "\\" + escaped_string[-1]
     return escaped_string, possible_quotes
